@@ -57,10 +57,10 @@ inductive RetrieveCase (cl : Callers) (s : Srv) (c : Cache) (script : List XConn
     Option Etag → Cache → Prop
   | same (o : Option Etag) (h : ∀ fin, o = some fin → (c.entry fin).isSome) : RetrieveCase cl s c script sz o c
   | tmp (bs : Text) : RetrieveCase cl s c script sz none { c with files := c.files ++ [⟨none, bs⟩] }
-  | stored (x : XConn) (rest : List XConn) (fin : Etag) (body : Body) (bs : Text)
+  | stored (x : XConn) (rest : List XConn) (fin : Etag) (body : Option Body) (bs : Text)
       (hscript : script = x :: rest) (hetag : respEtag s x = some fin)
       (hget : doGet s.data s.kind x.conn = some (cl.getStatus, body))
-      (hcopy : (drainBody sz (body.rest.length + 1) 0 body [] []).2.1 = .ok bs)
+      (hcopy : (drainResp sz body).1 = .ok bs)
       (hnew : (c.entry fin).isSome = false) :
       RetrieveCase cl s c script sz (some fin) { c with files := c.files ++ [⟨some fin, bs⟩] }
 
@@ -91,18 +91,14 @@ theorem retrieve_case (cl : Callers) (s : Srv) (c : Cache) (script : List XConn)
           · next g hg => exact .tmp _
 
 /-- what a completed copy of a 200 answer holds -/
-theorem stored_content {cl : Callers} (hgs : cl.getStatus = httpOK) {s : Srv} {x : XConn} {body : Body}
+theorem stored_content {cl : Callers} (hgs : cl.getStatus = httpOK) {s : Srv} {x : XConn} {body : Option Body}
     {bs : Text} {sz : Nat → Nat}
     (hget : doGet s.data s.kind x.conn = some (cl.getStatus, body))
-    (hcopy : (drainBody sz (body.rest.length + 1) 0 body [] []).2.1 = .ok bs) :
+    (hcopy : (drainResp sz body).1 = .ok bs) :
     bs <+: s.data ∧ (x.conn.invisibleEnd s.data s.kind none = false → bs = s.data) := by
-  obtain ⟨hcl, hb⟩ := doGet_spec hget
-  obtain ⟨hpre, hfull⟩ := hb hgs
-  obtain ⟨_, hok, _⟩ := drainBody_spec sz (body.rest.length + 1) 0 body [] [] hcl
-  obtain ⟨h1, h2⟩ := hok bs hcopy
-  simp only [List.nil_append] at h1
-  subst h1
-  exact ⟨hpre, fun hinv => hfull h2 hinv⟩
+  obtain ⟨h1, h2, _⟩ := doGet_drain_spec hget hgs sz
+  rw [hcopy] at h1
+  exact ⟨h1, h2 bs hcopy⟩
 
 theorem respEtag_served {s : Srv} {x : XConn} {fin : Etag} (h : respEtag s x = some fin) :
     (fin, s.data) ∈ servedNow s := by
